@@ -20,28 +20,47 @@ def extract(g, X):
 
     def bpc():
         b = X.fn_body(enc, "predictor_geometry")
-        m = re.search(r"!matches!\(\s*params\.bits_per_component\s*,\s*([^)]*)\)", b)
-        return "[" + "; ".join("%d%%Z" % v for v in X.alt_set(m.group(1))) + "]"
+        m = re.search(r"matches!\(\s*[\w.]*\bbits_per_component\s*,", b)
+        o = b.index("(", m.start())
+        pat = X.split_top(b[o + 1:X.close_of(b, o)], ",")[1]
+        if not re.match(r"!\s*$", b[max(0, m.start() - 2):m.start()]) and not re.search(r"!\s*$", b[:m.start()]):
+            raise ValueError("bits_per_component test is no longer negated")
+        return "[" + "; ".join("%d%%Z" % v for v in sorted(X.pattern_set(pat, b, enc))) + "]"
     g.attempt([("bpc_allowed", "list Z")], "enc.rs:predictor_geometry", bpc)
 
     def names():
         b = X.fn_body(enc, "from_kind_and_params")
+        (kind,) = X.fn_params(enc, "from_kind_and_params")[:1]
         out = []
-        for m in re.finditer(r'"(\w+)"\s*=>\s*StreamFilter::(\w+)', b):
-            out.append("(%s, %d)" % (cbytes(m.group(1).encode()), VARIANTS.index(m.group(2))))
+        for arm in X.match_arms(b, re.escape(kind)):
+            m = re.match(r"StreamFilter::(\w+)", arm.expr)
+            if not m or arm.guard is not None:
+                continue
+            for p in arm.pats:
+                if re.fullmatch(r'"\w+"', p):
+                    out.append((p[1:-1], VARIANTS.index(m.group(1))))
         if not out:
             raise ValueError("no arms")
-        return "[" + "; ".join(out) + "]"
+        # string patterns are disjoint: their order in the source is immaterial; listed in the order of enum StreamFilter's names
+        out = X.ordered_by_key(out, VARIANTS)
+        return "[" + "; ".join("(%s, %d)" % (cbytes(n.encode()), v) for n, v in out) + "]"
     g.attempt([("filter_names", "list (list N * N)")], "enc.rs:StreamFilter::from_kind_and_params", names)
 
     def arms():
         b = X.fn_body(enc, "decode")
         out = []
-        for m in re.finditer(r"StreamFilter::(\w+)(?:\s*\([^)]*\))?\s*=>\s*(\w+)\s*\(", b):
-            out.append("(%d, %d)" % (VARIANTS.index(m.group(1)), DECODERS.index(m.group(2))))
+        for arm in X.match_arms(b, r"\*?\w+"):
+            m = re.match(r"(\w+)\s*\(", arm.expr)
+            if not m or arm.guard is not None:
+                continue
+            for p in arm.pats:
+                mp = re.fullmatch(r"StreamFilter::(\w+)(?:\s*\([^)]*\))?", p)
+                if mp:
+                    out.append((VARIANTS.index(mp.group(1)), DECODERS.index(m.group(1))))
         if not out:
             raise ValueError("no arms")
-        return "[" + "; ".join(out) + "]"
+        out = X.ordered_by_key(out, [0, 1, 2, 3, 9, 5])
+        return "[" + "; ".join("(%d, %d)" % r for r in out) + "]"
     g.attempt([("decode_arms", "list (N * N)")], "enc.rs:decode", arms)
 
     def pkeys():
@@ -58,7 +77,7 @@ def extract(g, X):
     def lzwcfg():
         # (early_change != 0) selects with_tiff_size_switch; both decoders Msb, symbol size
         b = X.fn_body(enc, "lzw_decode")
-        m = re.search(r"if\s+params\.early_change\s*!=\s*0\s*\{\s*Decoder::with_tiff_size_switch\(BitOrder::Msb,\s*(\d+)\)\s*\}\s*else\s*\{\s*Decoder::new\(BitOrder::Msb,\s*(\d+)\)", b)
+        m = re.search(r"if\s+\w+\.early_change\s*!=\s*0\s*\{\s*Decoder::with_tiff_size_switch\(BitOrder::Msb,\s*(\d+)\)\s*\}\s*else\s*\{\s*Decoder::new\(BitOrder::Msb,\s*(\d+)\)", b)
         return m.group(1), m.group(2)
     g.attempt([("lzw_sym_early", "N"), ("lzw_sym_plain", "N")], "enc.rs:lzw_decode", lzwcfg)
 
@@ -66,10 +85,13 @@ def extract(g, X):
         # stream.rs StreamInfo::from_primitive: keys read for the filter list and its parameters, and the
         # parameter looked up for filter i is decode_params.get(i)
         b = X.item_body(stream, r"impl<T:\s*Object>\s*Object\s+for\s+StreamInfo<T>\s*\{", "impl Object for StreamInfo")
-        f = re.search(r'let\s+filters\s*=\s*Vec::<Name>::from_primitive\(\s*dict\.remove\("(\w+)"\)', b)
-        d = re.search(r'let\s+decode_params\s*=\s*Vec::<Option<Dictionary>>::from_primitive\(\s*dict\.remove\("(\w+)"\)', b)
-        i = re.search(r"for\s*\(i,\s*filter\)\s*in\s*filters\.iter\(\)\.enumerate\(\)\s*\{\s*let\s+params\s*=\s*match\s+decode_params\.get\((\w+)\)", b)
-        if i.group(1) != "i":
-            raise ValueError("parameter index is %s" % i.group(1))
-        return cbytes(f.group(1).encode()), cbytes(d.group(1).encode())
+        f = re.search(r'let\s+(\w+)\s*=\s*Vec::<Name>::from_primitive\(\s*\w+\.remove\("(\w+)"\)', b)
+        d = re.search(r'let\s+(\w+)\s*=\s*Vec::<Option<Dictionary>>::from_primitive\(\s*\w+\.remove\("(\w+)"\)', b)
+        fl, dp = f.group(1), d.group(1)
+        i = re.search(r"for\s*\(\s*(\w+)\s*,\s*\w+\s*\)\s*in\s*" + fl + r"\.iter\(\)\.enumerate\(\)\s*\{", b)
+        loop = X.item_body(b[i.start():], r"\{", "filter loop")
+        gi = re.search(dp + r"\.get\(\s*(\w+)\s*\)", loop)
+        if gi.group(1) != i.group(1):
+            raise ValueError("parameter index is %s" % gi.group(1))
+        return cbytes(f.group(2).encode()), cbytes(d.group(2).encode())
     g.attempt([("key_filter", "list N"), ("key_parms", "list N")], "stream.rs:StreamInfo::from_primitive", pairing)
